@@ -2,6 +2,8 @@
 # fuzz_campaign.sh <target> <runs per worker> <max_len> <workers>
 # Coverage-guided libFuzzer campaign for the thorough tier of C04 (targets in /verif/fuzz). Fresh working corpus
 # copied from fuzz/seeds/<target>; -seed=VERIF_SEED (0 is remapped to 1: libFuzzer treats 0 as "random").
+# The campaign ends after <runs> executions per worker or after VERIF_FUZZ_SECONDS (default 600 s) of wall clock,
+# whichever comes first; hitting the time budget only ends the exploration, it is never a verdict.
 # Prints one JSON line with the statistics; artifacts (crashing inputs) are left in fuzz/artifacts/<target>/.
 set -u
 cd "$(dirname "$0")/../harness" || exit 2
@@ -21,7 +23,7 @@ start=$(date +%s)
 pids=()
 for w in $(seq 1 "$workers"); do
     "$bin" "$work" -runs="$runs" -seed=$((seed * 100 + w)) -max_len="$maxlen" -len_control=0 -dict=dict/oh.dict \
-        -artifact_prefix="$art/" -print_final_stats=1 -timeout=60 -rss_limit_mb=4096 -reload=1 >"logs/$target-$w.log" 2>&1 &
+        -artifact_prefix="$art/" -print_final_stats=1 -timeout=120 -rss_limit_mb=6144 -reload=1 -max_total_time="${VERIF_FUZZ_SECONDS:-600}" -handle_term=0 -handle_int=0 >"logs/$target-$w.log" 2>&1 &
     pids+=($!)
 done
 rc_all=0
